@@ -1,5 +1,5 @@
 """C18 - parsing a replay cannot execute code chosen by the file."""
-import os, sys, json, pickle, random, shutil, struct, tempfile, sysconfig
+import os, re, sys, json, pickle, random, shutil, struct, tempfile, sysconfig
 from tools import common, gen_sites, battle, recordings, c18_marker, gen_types
 from tools.gen_const import GEN_DIR, coq_str
 LEVEL = 'other'
@@ -104,9 +104,15 @@ def run(ctx):
         ok, out = common.coqc(os.path.join(GEN_DIR, 'GenC18.v'), extra_q=[(GEN_DIR, 'Gen')])
         if ok: ctx.coq_props(os.path.join(GEN_DIR, 'Inst_C18.v'), extra_q=[(GEN_DIR, 'Gen')])
     ctx.extra['call_sites'] = {c: len(l) for c, l in cls.items()}; ctx.extra['pickle_loads_sites'] = len(pl)
-    if pl:
-        ctx.deviation('unrestricted-pickle', {'class': 'unrestricted-pickle'}, dict(kind='static', sites=len(pl), first=pl[:3],
+    # the listed finding covers ONE channel: pickled method arguments handed to the per-version controllers; a deserialisation site anywhere else
+    # (a packet class, the reader, the CLI) is a different violation and is reported as such
+    ctl = re.compile(r'^replay_unpack/clients/[a-z]+/versions/[^/]+/battle_controller\.py$')
+    pl_ctl = [x for x in pl if ctl.match(x[0].replace(os.sep, '/'))]; pl_other = [x for x in pl if x not in pl_ctl]
+    ctx.extra['pickle_loads_sites_outside_controllers'] = len(pl_other)
+    if pl_ctl:
+        ctx.deviation('unrestricted-pickle', {'class': 'unrestricted-pickle', 'channel': 'controller-method-argument'}, dict(kind='static', sites=len(pl_ctl), first=pl_ctl[:3],
                       how='pickle.loads / pickle.load on bytes taken from method arguments of the replay'))
+    new_site_replay = None
     # ---- dynamic
     q = ctx.tier == 'quick'; rng = ctx.rng
     tmp = tempfile.mkdtemp(prefix='verif-c18-')
@@ -133,9 +139,34 @@ def run(ctx):
             out, ev, marks = audited_parse(p)
             ctx.case(('hostile', v)); ctx.count('hostile:marker-called' if marks else 'hostile:marker-not-called')
             if marks or any(e == 'pickle.find_class' and a[:2] == ('tools.c18_marker', 'mark') for e, a in ev):
-                ctx.deviation('unrestricted-pickle', {'class': 'unrestricted-pickle'}, dict(kind='dynamic', version='wows/' + v, marker_calls=len(marks),
+                ctx.deviation('unrestricted-pickle', {'class': 'unrestricted-pickle', 'channel': 'controller-method-argument'}, dict(kind='dynamic', version='wows/' + v, marker_calls=len(marks),
                               how='a battle whose pickled arguments are  cGLOBAL tools.c18_marker.mark (7,) REDUCE ; ReplayParser(file).get_info()'))
             os.unlink(p)
+        # (2b) hostile packet bodies: every packet type id 0..0x40 of every dialect carrying the hostile pickle raw, length-prefixed, and after a
+        #      plausible entity header - no packet class may hand its body to a deserialiser (the failing-input search for a new site)
+        hp = hostile_pickle()
+        for ext, key, vs in (('wowsreplay', 'clientVersionFromXml', '13,2,0,1'), ('wowsreplay', 'clientVersionFromXml', '0,10,6,1'), ('wowsreplay', 'clientVersionFromXml', '12,6,0,1'),
+                             ('wotreplay', 'clientVersionFromXml', 'World\xa0of\xa0Tanks v.1.10.0.0 #77'), ('wowpreplay', 'clientVersion', 'World of Warplanes 2.1.17.5')):
+            for shape, body in (('raw', hp), ('length-prefixed', struct.pack('<I', len(hp)) + hp), ('after-ids', struct.pack('<II', 1, 0) + struct.pack('<I', len(hp)) + hp)):
+                stream = b''.join(struct.pack('<IIf', len(body), t, 1.0) + body for t in range(0x41))
+                p = os.path.join(tmp, 'bodies.' + ext); battle.write_replay(p, ext, {key: vs}, stream)
+                out, ev, marks = audited_parse(p)
+                ctx.case(('hostile-bodies', vs, shape)); ctx.count('hostile-bodies:' + ext)
+                if marks or any(e == 'pickle.find_class' and a[:2] == ('tools.c18_marker', 'mark') for e, a in ev):
+                    # which packet type does it: bisect by single-type streams
+                    guilty = []
+                    for t in range(0x41):
+                        battle.write_replay(p, ext, {key: vs}, struct.pack('<IIf', len(body), t, 1.0) + body)
+                        o2, ev2, m2 = audited_parse(p)
+                        if m2 or any(e == 'pickle.find_class' for e, a in ev2): guilty.append(t)
+                    new_site_replay = ctx.violation(dict(kind='packet-body-deserialised', version_string=vs, shape=shape, packet_types=[hex(t) for t in guilty], body=body.hex(),
+                                       how='a replay with that version string and one packet of the listed type whose payload is the given bytes (a pickle naming '
+                                           'tools.c18_marker.mark); ReplayParser(file).get_info() under sys.addaudithook resolves and calls the named function'))
+                    break
+            if new_site_replay: break
+        if pl_other and not new_site_replay:
+            ctx.violation(dict(kind='new-deserialisation-site', sites=pl_other[:5],
+                               note='a pickle.load(s) call outside the per-version controllers; the hostile-packet-body search did not reach it'), no_input=True)
         # (3) crafted version strings with path components: nothing outside the bundle may be probed or read
         evil = os.path.join(tmp, 'evil'); src = os.path.join(bundled, 'clients', 'wows', 'versions', '0_9_4', 'scripts')
         shutil.copytree(src, os.path.join(evil, 'scripts'))
